@@ -78,7 +78,11 @@ result_t PlainDevice::recv(unsigned int timeout, symbol_t* value, ArbitrationSta
   size_t len = 0;
   result_t result;
   do {
-    result = m_transport->read(timeout, &data, &len);
+    // symbols that are buffered already are taken before waiting for new data
+    result = timeout > 0 ? m_transport->read(0, &data, &len) : RESULT_ERR_TIMEOUT;
+    if (result != RESULT_OK) {
+      result = m_transport->read(timeout, &data, &len);
+    }
     if (result == RESULT_OK) {
       break;
     }
@@ -290,6 +294,17 @@ result_t EnhancedDevice::recv(unsigned int timeout, symbol_t* value, Arbitration
   const uint8_t* data = nullptr;
   size_t len = 0;
   result_t result;
+  if (timeout > 0 && m_transport->read(0, &data, &len) == RESULT_OK) {
+    // a symbol that is buffered already is taken before waiting for new data
+    result = handleEnhancedBufferedData(data, len, value, arbitrationState);
+    if (result >= RESULT_OK) {
+      return result;
+    }
+    if (result != RESULT_ERR_TIMEOUT) {
+      cancelRunningArbitration(arbitrationState);
+      return result;
+    }
+  }
   do {
     result = m_transport->read(timeout, &data, &len);
     if (result == RESULT_OK) {
